@@ -179,6 +179,14 @@ func (e *Engine) discharge(cfg SolverCfg) {
 		}
 		todo = append(todo, o)
 	}
+	if d := os.Getenv("GOVC_DUMP"); d != "" {
+		for _, o := range todo {
+			if strings.Contains(o.Name, d) {
+				os.MkdirAll("/tmp/govc-dump", 0o755)
+				os.WriteFile("/tmp/govc-dump/"+sanitizeFile(o.Name)+".smt2", []byte(e.queryText(o, true, "")), 0o644)
+			}
+		}
+	}
 	if len(todo) == 0 {
 		return
 	}
